@@ -24,7 +24,7 @@ func (c *CriteriaConcealment) addCriterion(
 	generator := c.generatorSource(parsedProps.RandomSeed)
 	criterionBase := c.generateNewCriterionBase(listener, parsedProps.NewCriterionScaling, props, originalParams, resParams)
 	addResult := generateCriterionValuesForAlternatives(criterionBase.newCriterion, resParams, generator, bounding)
-	addedCriterionParams := (*listener).OnCriterionAdded(criterionBase.newCriterion, criterionBase.referenceCriterion, originalParams.MethodParameters, generator)
+	addedCriterionParams := (*listener).OnCriterionAdded(criterionBase.newCriterion, criterionBase.referenceCriterion, resParams.MethodParameters, generator)
 	finalParams := (*listener).Merge(resParams.MethodParameters, addedCriterionParams)
 	newCriteria := resParams.Criteria.Add(criterionBase.newCriterion)
 	return &model.DecisionMakingParams{
@@ -50,9 +50,9 @@ func (c *CriteriaConcealment) generateNewCriterionBase(
 	originalParams, currentParams *model.DecisionMakingParams,
 ) newCriterionBase {
 	refCriterionProvider := c.referenceCriterionManager.ForParams(props)
-	rankedCriteria := (*listener).RankCriteriaAscending(originalParams)
+	rankedCriteria := (*listener).RankCriteriaAscending(currentParams)
 	referenceCriterion := refCriterionProvider.Provide(rankedCriteria)
-	valRange := getCriterionValueRange(originalParams, referenceCriterion, scaling)
+	valRange := getCriterionValueRange(currentParams, referenceCriterion, scaling)
 	newCriterion := model.Criterion{
 		Id:          newConcealedCriterionName(&currentParams.Criteria),
 		Type:        model.Gain,
